@@ -4,7 +4,7 @@ from ..rt import check
 STREAMS = ["lifecycle"]
 REGENERATE_SRC = True
 RULE = ("histories over 2..4 ServiceRunner instances: accept, a concurrent accept from another thread, then shutdown() "
-        "from an outside thread or from a thread payload / SIGINT / a failing payload, then accept on the next runner; a "
+        "from an outside thread or from a thread payload / SIGINT / a failing payload (Exception, SystemExit, another BaseException, a KeyboardInterrupt raised by the payload), shutdown() in the very instant the runner reports running (the worker holds the reporting thread up right after it set the flag), then accept on the next runner; a "
         "concurrent accept on the active instance itself right after shutdown() was called (polling period 0.2 s); shutdown() "
         "again, from one or two threads, on a runner whose run has ended; "
         "payload populations at that moment: none, sleeping coroutines, blocked threads; the moment is swept across the "
